@@ -827,3 +827,37 @@ def fresh_stack(ctx):
                 'a Script object evaluated twice gives two verdicts: `1 DEPTH 2 EQUAL`, which consensus rejects, is reported valid on the second call')
     later = [a for a in ast.walk(fn) if isinstance(a, ast.Assign) and any(norm(t) == 'self.stack' for t in a.targets) and a is not first]
     ctx.require(not later, q, 'self.stack is assigned again inside evaluate (`%s`)' % (norm(later[0])[:60] if later else ''), later[0] if later else fn)
+
+
+@PROP.obligation('C19.push-verbatim', canaries=[
+    mut.replace_expr('scripts', 'Script.evaluate', 'self.stack.append(command)', 'self.stack.append(to_bytes(command))', 'pushed data goes through the hex-guessing normaliser'),
+    mut.replace_expr('scripts', 'Script.evaluate', 'self.stack.append(command)', 'self.stack.append(command.strip())', 'pushed data is stripped'),
+])
+def push_verbatim(ctx):
+    """A data push puts exactly the pushed bytes on the stack. In Script.evaluate the branch for commands that are not opcodes appends the
+    command itself - not the result of a call on it: to_bytes() reads bytes that spell hexadecimal text ("cafe", "12") as that hex
+    string and ASCII white space as nothing, so `<"cafe"> <0xcafe> EQUAL`, which consensus rejects, would be reported valid."""
+    q = 'scripts:Script.evaluate'
+    fn = ctx.repo.func(q)
+    branches = [i_ for i_ in ast.walk(fn) if isinstance(i_, ast.If) and norm(i_.test) == 'isinstance(command, int)' and i_.orelse]
+    if len(branches) != 1:
+        ctx.undecided('Script.evaluate: the opcode / data dispatch `if isinstance(command, int)` was not found')
+    C = ('var', 'command')
+    ST = ('var', 'the_stack')
+    seen = []
+    it = Interp(ctx.repo, 'scripts', self_cls='scripts:Script', hooks={'.append': lambda it_, b, a, kw, st, node: (seen.append((term(b) if isinstance(b, S) else b, [term(x) if isinstance(x, S) else x for x in a], node)), None)[1]})
+    st = State(env={'self': S(('var', 'self')), 'command': S(C, 'bytes')})
+    st.heap[('attr', ('var', 'self'), 'stack')] = S(ST)
+    it.frames.append([])
+    try:
+        it.exec_block(branches[0].orelse, st)
+    except AnalysisError as e:
+        ctx.undecided('Script.evaluate: data-push branch not evaluable: %s' % str(e)[:100])
+    it.frames.pop()
+    pushes = [x for x in seen if x[0] == ST]
+    if len(pushes) != 1:
+        ctx.undecided('Script.evaluate: the data-push branch appends %d values to the stack, expected 1' % len(pushes))
+    val = pushes[0][1][0] if pushes[0][1] else None
+    ctx.saw('data push: stack.append(%s)' % (show(val) if isinstance(val, tuple) else val))
+    ctx.require(val == C, q, 'a data push puts `%s` on the stack instead of the pushed bytes themselves' % (show(val) if isinstance(val, tuple) else val), pushes[0][2],
+                'the element "cafe" (63616665) becomes 0xcafe: `<"cafe"> SHA256 <sha256("cafe")> EQUAL` fails and `<"cafe"> <0xcafe> EQUAL`, which consensus rejects, is reported valid')
